@@ -13,9 +13,9 @@ def nontrivial(req, obs):
 
 PROP = {
     "id": "C13",
-    "lean_targets": ["WmModel.Props.C13", "WmModel.Props.C13Tie", "WmModel.Props.C13Router", "WmModel.Props.C02Tie"],
+    "lean_targets": ["WmModel.Props.C13", "WmModel.Props.C13Tie", "WmModel.Props.C13Router", "WmModel.Props.C13Retry", "WmModel.Props.C02Tie", "WmModel.Props.C12Tie"],
     # the Router settle rule is derived from the handleMessage model: its body is re-extracted and its tie re-proved here too
-    "extract_also": ["C02"],
+    "extract_also": ["C02", "C12"],
     "audit_module": "Audit.C13",
     "theorems": [
         "Wm.Poison.poisonKeys_distinct", "Wm.Poison.lookup_stamp",
@@ -30,8 +30,10 @@ PROP = {
         "Wm.Poison.stateful_acked_implies_handled_or_poisoned", "Wm.Poison.stateful_verdict", "Wm.Poison.budget_filter_stream",
         # the Router's settle rule derived from the C02/C03 models (Props/C13Router.lean)
         "Wm.Poison.routerSettle_eq_handle", "Wm.Poison.routerSettle_eq_handle_panic", "Wm.Poison.acked_by_handleMessage_implies_handled_or_poisoned",
+        # PoisonQueue(Retry(h)) inside a Router: three tied models composed (Props/C13Retry.lean)
+        "Wm.Poison.poison_only_after_retries_failed", "Wm.Poison.acked_under_poison_retry",
     ],
-    "tie_theorems": ["Wm.GoPoison.extracted_middleware_eq_model", "Wm.GoHandle.handle_skeleton_eq_model", "Wm.GoHandle.publish_skeleton_eq_model"],
+    "tie_theorems": ["Wm.GoPoison.extracted_middleware_eq_model", "Wm.GoHandle.handle_skeleton_eq_model", "Wm.GoHandle.publish_skeleton_eq_model", "Wm.GoRetry.extracted_retry_eq_model"],
     "harness": "c13",
     "race": True,
     "driver": "drv_c13",
